@@ -383,6 +383,20 @@ func TestC18(t *testing.T) {
 				dt := rapid.SampledFrom([]time.Duration{time.Microsecond, 6 * time.Second, time.Hour}).Draw(rt, "dt")
 				w.f.SetBlock(w.f.Height()+1, w.f.Time().Add(dt))
 			},
+			"oddInstant": func(rt *rapid.T) {
+				// the next block time whose microsecond count carries a given byte pattern in its low bytes ('/', NUL, 0xFF,
+				// newline, quote ...): time stamps end up inside keys and encodings
+				pat := rapid.SampledFrom([]int64{0x2F, 0x2F2F, 0x002F, 0x2F00, 0x00, 0xFF, 0xFFFF, 0x0A, 0x22, 0x5C}).Draw(rt, "lowBytes")
+				mask := int64(0xFF)
+				if pat > 0xFF || pat == 0x002F || pat == 0x2F00 {
+					mask = 0xFFFF
+				}
+				us := w.f.Time().UnixMicro() + 1
+				for us&mask != pat&mask {
+					us++
+				}
+				w.f.SetBlock(w.f.Height()+1, time.UnixMicro(us).UTC())
+			},
 			"": func(rt *rapid.T) { fail(w.invariant()) },
 		})
 		if w.viaName {
